@@ -189,7 +189,8 @@ theorem clearArea_returns (dr sr : Rect) (hsr : sr.Nonempty) : ∃ rects, clearA
   generalize (Rect.mk dr.top dr.left sr.lines sr.cols) = hole at hh ⊢
   rw [add_empty]
   simp only []
-  unfold RectSet.subtract RectSet.subtractFrom
+  rw [RectSet.subtract_of_nonempty _ _ _ hh]
+  unfold RectSet.subtractFrom
   simp only [List.getElem?_cons_zero]
   by_cases hi : sr.intersects hole = true
   · rw [hi]
